@@ -24,6 +24,14 @@ def run(R):
     while len(reqs) < (9000 if quick else 120000):
         a, b, ctx, hs = c01.valid_case(rng, 12 if quick else 30)
         mirrored = rng.random() < 0.3
+        creation = rng.random() < 0.12
+        if creation:
+            # a patch that creates the file (old range 0,0): once applied the file is no longer empty, which is what its hunk expects
+            b = [l for l in gen.rand_file(rng, 8) if l[1] != "N"] or [(b"new", "L")]
+            a = []
+            if mirrored:
+                a, b = b, a        # mirrored: the diff deletes everything, it was applied with -R (creating the file) and is run with -R again
+            ctx = rng.choice([0, 1, 3]); hs = gen.make_hunks(a, b, ctx)
         if mirrored:
             # history under -R: the diff was applied reversed to B giving A; now it is run with -R again on A
             if any(h["ns"] == 0 and h["nc"] == 0 and b for h in hs):
@@ -33,7 +41,7 @@ def run(R):
             if any(h["ns"] == 0 and h["nc"] == 0 and b for h in hs):
                 continue
             file_, first, other = b, hs[0], a
-        if ambiguous(file_, first):
+        if ambiguous(file_, first) and not (creation and first["os"] == 0 and first["oc"] == 0 and file_):
             continue
         mode = rng.choice(["N", "t", "f"])
         o = dict(reverse=int(mirrored), N=int(mode == "N"), t=int(mode == "t"), f=int(mode == "f"), l=0, F=rng.choice([0, 1, 2]), D=b"",
@@ -67,7 +75,8 @@ def run(R):
         jobs, meta2 = [], []
         n = 150 if quick else 2500
         while len(jobs) < n:
-            A, B, ch, prod, ctx, text = drv.make_case(rng, P, ops=("modify",), producer=rng.choice(["gnu-u", "git", "emit-u", "emit-c", "gnu-c"]), ctx=rng.choice([1, 2, 3]))
+            A, B, ch, prod, ctx, text = drv.make_case(rng, P, ops=rng.choice([("modify",), ("modify",), ("create",), ("modify", "create")]),
+                                                      producer=rng.choice(["gnu-u", "git", "emit-u", "emit-c", "gnu-c"]), ctx=rng.choice([1, 2, 3]))
             if drv.has_d2(text):
                 continue
             # ambiguity per file: first hunk of each file must no longer fit B
@@ -115,6 +124,6 @@ def run(R):
 
 
 RULE = ("two-step histories: B = patch(A), then the same patch is run on B with -N, -t or -f (and mirrored under -R), excluding the inherently ambiguous "
-        "case where the first hunk still fits B at its stated place; apply_patch level via T3 and sb_patch level in scratch trees with diffs by GNU diff, "
+        "case where the first hunk still fits B at its stated place (file-creation patches are NOT excluded: their hunk expects an empty file); apply_patch level via T3 and sb_patch level in scratch trees with diffs by GNU diff, "
         "git and the emitter. All histories are non-trivial.")
 ASSUME = ["the first hunk no longer applies exactly at its stated line (the property's exclusion)", "known finding D2 excluded"]
